@@ -33,9 +33,11 @@ _EDGE_DAYS = [
 
 
 # ---- abstract members -----------------------------------------------------
-# ("lit", text) | ("ymd", idx, suffix) | ("dayfmt", idx, fmt, suffix) | ("grp", k)
+# ("lit", text) | ("esc", pattern, rendered) | ("ymd", idx, suffix) | ("dayfmt", idx, fmt, suffix) | ("grp", k)
 def _member_text(m, names):
     if m[0] == "lit":
+        return m[1]
+    if m[0] == "esc":
         return m[1]
     if m[0] == "ymd":
         return "{yyyymmdd[%d]}%s" % (m[1], m[2])
@@ -48,6 +50,9 @@ def _model_render(m, day: dt.date) -> str:
     """The model's own 7-day window: today and the previous six days."""
     if m[0] == "lit":
         return m[1]
+    if m[0] == "esc":
+        # '{{' / '}}' are the escapes of a format string: formatted ONCE they are literal braces
+        return m[2]
     d = dt.date.fromordinal(day.toordinal() - m[1])
     if m[0] == "ymd":
         return "%04d%02d%02d%s" % (d.year, d.month, d.day, m[2])
@@ -90,6 +95,7 @@ def _alphabets(seed):
         ("ymd", 0, ".zo"),
         ("ymd", 6, "_x.zo"),
         ("dayfmt", 1, "%Y", "/f.zo"),
+        ("esc", "tmpl_{{yyyymmdd[1]}}_{{x}}.zo", "tmpl_{yyyymmdd[1]}_{x}.zo"),
     ]
     return base, names, argf
 
@@ -103,9 +109,12 @@ def _params(ctx: F.Ctx):
 def _build(ctx: F.Ctx):
     base, names, argf = _alphabets(ctx.seed)
     p = _params(ctx)
+    # the member with brace escapes belongs to the innermost group only (it is reached through g1 and
+    # g2 there, i.e. always nested, which is where formatting twice would show)
+    plain = [m for m in base if m[0] != "esc"]
     a3 = list(_lists(base, p["len_g3"]))
-    a2 = list(_lists(base + [("grp", 2)], p["len_g2"]))
-    a1 = list(_lists(base + [("grp", 1), ("grp", 2)], p["len_g1"]))
+    a2 = list(_lists(plain + [("grp", 2)], p["len_g2"]))
+    a1 = list(_lists(plain + [("grp", 1), ("grp", 2)], p["len_g1"]))
     # ordinary path arguments are left untouched, also when they look like member patterns
     arg_alpha = [("grp", 0), ("grp", 1), ("grp", 2), ("path", argf[0]), ("path", argf[1]),
                  ("path", "{yyyymmdd[0]}_lit.zo"), ("path", "t_{{x}}.zo"),
